@@ -155,6 +155,15 @@ pub fn drive(args: &[String]) {
             for z in 1..=3usize { let mut b = tb[..cut].to_vec(); b.extend(std::iter::repeat(0u8).take(z)); corpus.push((b, "string-prefix")); }
         }
     }
+    // a constant that stands BEFORE the declaration of its type (one-word literal, whatever the type turns out to be)
+    for (w, sg) in [(64u32, 1u32), (64, 0), (32, 1), (16, 1), (8, 1), (128, 1)] {
+        corpus.push((enc(&[SInst { op: 43, rt: Some(1), rid: Some(2), ops: vec![SOp::one("LiteralBit32", 0xffff_fff9)] },
+                           SInst { op: 21, rt: None, rid: Some(1), ops: vec![SOp::one("LiteralBit32", w), SOp::one("LiteralBit32", sg)] }]), "late-type"));
+    }
+    for w in [64u32, 32, 16] {
+        corpus.push((enc(&[SInst { op: 43, rt: Some(1), rid: Some(2), ops: vec![SOp::one("LiteralBit32", 0x3fc0_0000)] },
+                           SInst { op: 22, rt: None, rid: Some(1), ops: vec![SOp::one("LiteralBit32", w)] }]), "late-type"));
+    }
     // ids that are their own result type / cyclic type chains, then literals and switches typed by them
     {
         let one = |k: &str, w: u32| SOp::one(k, w);
